@@ -74,6 +74,7 @@ def run(ck):
         ck.info("C11-R1", "assumed summary %s for %s" % (ax, fid), panics.AXIOMS[ax])
     # ---- R4 termination -------------------------------------------------------------------------------
     r4_termination(ck, [(scope, an), (scope2 - scope, an2)])
+    r5_names_the_applier_takes_for_granted(ck)
     r6_scan_stays_inside_the_file(ck)
     # ---- R2 allocations -------------------------------------------------------------------------------
     allocs = [o for o in obl + obl2 if o.kind == "alloc"]
@@ -135,6 +136,123 @@ def r4_termination(ck, scopes):
                            "or an error" % detail[:400], where)
     ck.count("loops in the parser and series-reader closures", n)
     ck.floor(rule, "loops shown to make progress", nproved, 5)
+
+
+def r5_names_the_applier_takes_for_granted(ck):
+    """C11-R5: the apply stage unwraps file names of a parsed file patch in two situations - the new (old) name of a renaming patch,
+    and "the other name" when one is absent.  Both are promises of the parser: (I1) a file patch has at least one real name,
+    (I2) a renaming file patch has both.  Consumer side: every unwrap / expect of `old_filename()` / `new_filename()` outside libpatch's
+    parser is covered by I1 or I2 (guarded by `is_rename()`, or made where the other name is known to be absent).  Producer side: in every
+    function that builds a FilePatch through the builder, for all 36 valuations of (rename_from, rename_to, old name, new name in
+    {absent, /dev/null, real}) the build is unreachable when no name is real, and with exactly one real name the value handed to
+    `is_rename` is false - reachability under assumptions (pathconst), nothing is executed."""
+    from .. import pathconst, patterns as pt, guards, cfg
+    prog = ck.prog
+    rule = "C11-R5"
+    getters = ("FilePatch::<'a, Line>::old_filename", "FilePatch::<'a, Line>::new_filename")
+
+    def getter_of(e):
+        for x in df.walk(e):
+            for g in getters:
+                if df.is_call(x, g):
+                    return g.split("::")[-1]
+        return None
+    # ---- consumers ----
+    n = 0
+    for fn in sorted(prog.fns.values(), key=lambda f: f.id):
+        if fn.file.endswith("unified/parser.rs") or "/tests/" in fn.file:
+            continue
+        for bb, t in fn.calls():
+            last = (callee_of(t).get("path") or "").split("::")[-1]
+            if fn.blocks[bb]["cleanup"] or last not in ("unwrap", "expect") or "Option" not in (callee_of(t).get("path") or "") or not t["args"]:
+                continue
+            e = df.operand_expr(fn, t["args"][0])
+            which = getter_of(e)
+            if which is None or not (df.is_call(e, getters[0]) or df.is_call(e, getters[1])):
+                continue
+            n += 1
+            inst = "%s().unwrap() in %s" % (which, fn.id)
+            # I2: under is_rename()
+            ok = None
+            for g in guards.find_bool_guards(fn, lambda x: df.is_call(x, "FilePatch::<'a, Line>::is_rename")):
+                if bb in cfg.dominated_by_edge(fn, g["true_edge"]):
+                    ok = "inside `if is_rename()`: a renaming file patch has both names (I2)"
+            # I1: where the other name is absent - the closure of unwrap_or_else / or_else on the other getter, or its None edge
+            other = "new_filename" if which == "old_filename" else "old_filename"
+            if ok is None and fn.kind == "Closure":
+                par = prog.fns.get(fn.parent)
+                for b2, t2 in (par.calls() if par else []):
+                    l2 = (callee_of(t2).get("path") or "").split("::")[-1]
+                    if l2 in ("unwrap_or_else", "or_else", "map_or_else") and len(t2["args"]) >= 2:
+                        ce = df.operand_expr(par, t2["args"][1])
+                        if isinstance(ce, tuple) and ce[:2] == ("closure", fn.id) and getter_of(df.operand_expr(par, t2["args"][0])) == other:
+                            ok = "only evaluated when %s() is None: a file patch has at least one name (I1)" % other
+            if ok is None:
+                for sw in pt.discr_switches(fn, lambda x, rv: getter_of(x) == other and (df.is_call(x, getters[0]) or df.is_call(x, getters[1]))):
+                    ne = sw["edges"].get("None")
+                    if ne and bb in cfg.dominated_by_edge(fn, ne):
+                        ok = "on the None edge of a match on %s(): a file patch has at least one name (I1)" % other
+            ck.require(ok is not None, rule, inst,
+                       "the name is unwrapped where neither `is_rename()` holds nor the other name is known to be absent: a parsed patch need not "
+                       "have it (\"--- /dev/null\"), the tool would panic", fn.where(t), ok_detail=ok or "")
+    ck.floor(rule, "unwraps of a file patch's names outside the parser", n, 3)
+    # ---- producers ----
+    builders = []
+    for fn in sorted(prog.fns.values(), key=lambda f: f.id):
+        if "/tests/" in fn.file or fn.kind == "Closure":
+            continue
+        bs = [(bb, t) for bb, t in fn.calls() if (callee_of(t).get("path") or "").endswith("FilePatchBuilder::<'a, Line>::build") and not fn.blocks[bb]["cleanup"]]
+        if bs:
+            builders.append((fn, bs))
+    ck.floor(rule, "functions that build a FilePatch", len(builders), 1)
+    for fn, bs in builders:
+        def is_self_field(x, name):
+            return isinstance(x, tuple) and x[0] == "field" and x[2] == name and isinstance(x[1], tuple) and x[1][0] == "param" and x[1][1] == 1
+        bad1 = bad2 = None
+        nval = 0
+        for rf in (False, True):
+            for rt in (False, True):
+                for o in ("None", "DevNull", "Real"):
+                    for nw in ("None", "DevNull", "Real"):
+                        nval += 1
+                        val = {"old_filename": o, "new_filename": nw}
+
+                        def atom(x, rf=rf, rt=rt):
+                            if is_self_field(x, "rename_from"):
+                                return rf
+                            if is_self_field(x, "rename_to"):
+                                return rt
+                            return None
+
+                        def valuation(x, val=val):
+                            strip = 0
+                            while isinstance(x, tuple) and x and x[0] == "field" and x[2] == 0 and isinstance(x[1], tuple) and x[1][0] == "downcast":
+                                x = x[1][1]
+                                strip += 1
+                            for side, v in val.items():
+                                if is_self_field(x, side):
+                                    nested = ("None",) if v == "None" else ("Some", v)
+                                    return nested[strip:] or None
+                            return None
+                        envs = pathconst.reach_under(fn, atom, None, return_envs=True, valuation=valuation, prog=prog)
+                        built = any(bb in envs for bb, t in bs)
+                        real = (o == "Real") + (nw == "Real")
+                        if built and real == 0 and bad1 is None:
+                            bad1 = "old name %s, new name %s" % (o, nw)
+                        if built and real == 1 and bad2 is None:
+                            for bb, t in fn.calls():
+                                if bb in envs and (callee_of(t).get("path") or "").endswith("FilePatchBuilder::<'a, Line>::is_rename") and len(t["args"]) == 2:
+                                    v = pathconst._operand_value(fn, t["args"][1], envs[bb], atom)
+                                    if v is not False:
+                                        bad2 = "rename from: %s, rename to: %s, old name %s, new name %s -> is_rename(%s)" % (
+                                            rf, rt, o, nw, "true" if v else "a value that is not known to be false")
+        ck.require(bad1 is None, rule, "no file patch is built without a real name (I1, %s)" % fn.id.split("::")[-1],
+                   "a FilePatch can be built with %s: the apply stage unwraps `the other name` and would panic" % bad1, fn.where(bs[0][1]),
+                   ok_detail="%d valuations of the metadata" % nval)
+        ck.require(bad2 is None, rule, "a renaming file patch is built only with both names real (I2, %s)" % fn.id.split("::")[-1],
+                   "a FilePatch marked as a rename can be built with one name missing (%s): the apply stage unwraps the new name of a renaming "
+                   "patch (apply_one_file_patch, the rename undo) and would panic" % bad2, fn.where(bs[0][1]),
+                   ok_detail="%d valuations of the metadata" % nval)
 
 
 def r6_scan_stays_inside_the_file(ck):
